@@ -75,6 +75,16 @@ def graphs():
                                "rechunk_on_save": {"ma": False, "mb": False}},
                               {"name": "top", "type": "row", "deps": ["ma"], "field": "v1", "save_when": "ALWAYS", "rechunk_on_save": False}],
                   "target": "top", "side": "mb", "mid": "m"}
+    # a multi-output plugin that declares its own buffer size (12 chunks of lag behind an exhaust plugin, context
+    # default 4): both of its outputs must get that capacity, otherwise the fault-free run never terminates
+    ncap = 12
+    g["multi_cap"] = {"sources": [{"name": "ev", "kind": "ev", "rows": [(10 * i, 10 * i + 3, i + 1) for i in range(ncap)],
+                                   "cuts": [10 * i for i in range(ncap + 1)], "save_when": "NEVER"}],
+                      "plugins": [{"name": "m", "type": "multi", "deps": ["ev"], "field_a": "v1", "max_messages": 40,
+                                   "save_when": {"ma": "NEVER", "mb": "NEVER"}},
+                                  {"name": "xx", "type": "exhaust", "deps": ["ma"], "field": "v2", "save_when": "NEVER"},
+                                  {"name": "top", "type": "gather", "deps": ["ma", "xx", "mb"], "field": "v0", "save_when": "NEVER"}],
+                      "target": "top", "side": "mb", "mid": "m", "only": ["none"], "max_at": 0, "max_messages": 4}
     # the target hangs on the SECOND output of the multi-output plugin
     g["multi_b"] = {"sources": [{"name": "ev", "kind": "ev", "rows": ROWS_EV, "cuts": CUTS}],
                     "plugins": [{"name": "m", "type": "multi", "deps": ["ev"], "save_when": {"ma": "ALWAYS", "mb": "ALWAYS"},
